@@ -87,7 +87,7 @@ Fixpoint subscribe_op (l : lid) (sb : sub) (S : list (lid * list sub)) : list (l
   end.
 
 Definition drop_cls (c : cls) (ss : list sub) : list sub :=
-  filter (fun x => negb (s_cls x =? c)) ss.
+  filter (fun x : sub => negb (s_cls x =? c)) ss.
 
 Fixpoint unsubscribe_op (l : lid) (c : cls) (S : list (lid * list sub)) : list (lid * list sub) :=
   match S with
@@ -96,7 +96,7 @@ Fixpoint unsubscribe_op (l : lid) (c : cls) (S : list (lid * list sub)) : list (
   end.
 
 Definition unsubscribe_all_op (l : lid) (S : list (lid * list sub)) : list (lid * list sub) :=
-  filter (fun e => negb (fst e =? l)) S.
+  filter (fun e : lid * list sub => negb (fst e =? l)) S.
 
 (* ---------- _find_handlers ---------- *)
 
